@@ -4,6 +4,7 @@ import (
 	"fmt"
 	"go/types"
 	"os"
+	"regexp"
 	"sort"
 	"strings"
 
@@ -249,6 +250,50 @@ func (g *Gen) HeaderFor(r *FnResult) string {
 	for _, d := range g.TE.dtDecls {
 		b.WriteString(d + "\n")
 	}
+	// prefixes of literals: for a literal P used as the left operand of a concatenation and a literal L that does
+	// not start with P, the fact Str_sub(L, 0, |P|) = "L[:|P|]" (a literal distinct from P) separates L from every
+	// P ++ x (with Str_sub(P ++ x, 0, |P|) = P)
+	var prefixFacts []string
+	if used != nil && used["Str_cat"] {
+		var texts []string
+		texts = append(texts, r.Lines...)
+		for _, o := range r.Obls {
+			texts = append(texts, o.Goal)
+		}
+		for _, pd := range g.pureDefs {
+			if used[pd.Name] {
+				texts = append(texts, pd.Text)
+			}
+		}
+		byName := map[string]string{}
+		for s, n := range g.strLits {
+			byName[n] = s
+		}
+		lefts := map[string]bool{}
+		for _, t := range texts {
+			for _, m := range catLeftLit.FindAllStringSubmatch(t, -1) {
+				lefts[m[1]] = true
+			}
+		}
+		var ps []string
+		for n := range lefts {
+			if s, ok := byName[n]; ok && s != "" {
+				ps = append(ps, s)
+			}
+		}
+		sort.Strings(ps)
+		lits := append([]string(nil), g.strOrder...)
+		for _, pfx := range ps {
+			for _, l := range lits {
+				if !used[g.strLits[l]] || len(l) < len(pfx) || strings.HasPrefix(l, pfx) {
+					continue
+				}
+				cut := g.StrLit(l[:len(pfx)])
+				used[cut] = true
+				prefixFacts = append(prefixFacts, fmt.Sprintf("(assert (= (Str_sub %s 0 %d) %s))", g.strLits[l], len(pfx), cut))
+			}
+		}
+	}
 	if len(g.strOrder) > 0 {
 		var names []string
 		for _, s := range g.strOrder {
@@ -279,6 +324,9 @@ func (g *Gen) HeaderFor(r *FnResult) string {
 					}
 				}
 			}
+		}
+		for _, a := range prefixFacts {
+			b.WriteString(a + "\n")
 		}
 		// integer-looking literals: connect to itoa
 		for _, s := range g.strOrder {
@@ -346,6 +394,8 @@ func (g *Gen) HeaderFor(r *FnResult) string {
 	}
 	return b.String()
 }
+
+var catLeftLit = regexp.MustCompile(`\(Str_cat (lit\d+) `)
 
 func isDecimal(s string) bool {
 	if s == "" || len(s) > 9 {
